@@ -2,7 +2,7 @@
 (declare-sort Str 0)
 (declare-fun strlen (Str) Int)
 (declare-const emptyStr Str)
-(assert (forall ((s Str)) (! (>= (strlen s) 0) :pattern ((strlen s)))))
+(assert (forall ((s Str)) (! (and (>= (strlen s) 0) (<= (strlen s) 9223372036854775807)) :pattern ((strlen s)))))
 (assert (forall ((s Str)) (! (=> (= (strlen s) 0) (= s emptyStr)) :pattern ((strlen s)))))
 (assert (= (strlen emptyStr) 0))
 (declare-datatypes ((BS 0)) (((mkBS (bs_c Str) (bs_nil Bool)))))
